@@ -240,8 +240,35 @@ func runConnCase(c connCase) string {
 			}
 		case 'g':
 			r.pc.feed(unhx(op[1:]))
+		case 'c': // c<n>: from now on no Read returns more than n bytes (a slow link: many small segments)
+			n, _ := strconv.Atoi(op[1:])
+			r.pc.mu.Lock()
+			r.pc.readCap = n
+			r.pc.mu.Unlock()
+		case 'E': // E<hex>: the last bytes and the end of the stream arrive together (one Read returns n > 0 and io.EOF)
+			r.pc.feedFinal(unhx(op[1:]))
+			if !waitDone(r) {
+				r.log.add("!HANG")
+				atomic.StoreInt32(&hangFlag, 1)
+			}
 		case 'G': // release the handler call that waits on "slowkey"; then everything delivered so far is processed
-			time.Sleep(30 * time.Millisecond) // let the other connections reach the command lock
+			// let the other connections reach the command lock: each has taken everything that was sent to it off its socket
+			// (and is therefore past its read, inside the request), then a little more time to get from the parser to the lock
+			for _, r2 := range runs {
+				if r2 == r {
+					continue
+				}
+				for k := 0; k < 400; k++ {
+					r2.pc.mu.Lock()
+					pending := len(r2.pc.chunks)
+					r2.pc.mu.Unlock()
+					if pending == 0 {
+						break
+					}
+					time.Sleep(5 * time.Millisecond)
+				}
+			}
+			time.Sleep(60 * time.Millisecond)
 			gateRelease()
 			if !waitQuiet(r) {
 				r.log.add("!HANG")
